@@ -11,7 +11,7 @@ from ..core.values import K, T, RegexV, show
 
 TEXTS = ('abc', '\xe9', '€', '')
 BYTESV = (b'abc', b'', b'\xc3\xa9', b'\xe9', b'a\x00b\x00', b'\xff\xfe',
-          b'\x82\xa0')
+          b'\x82\xa0', b'\xef\xbb\xbfni\xc3\xb1o')
 ENCODINGS = ('utf-8', 'UTF-8', 'latin-1', 'utf-16-le', 'ascii', 'cp1252',
              'shift_jis')
 ERRORS = ('strict', 'ignore', 'replace')
